@@ -1032,3 +1032,68 @@ def burst_shape_cases(seeds, prefix="bs"):
         ops += ["GS " + Sn, "GS " + S2, "GT " + T, "PUB %s 1 65 0" % T, "PULL %s 10 1" % S2, "LTS %s 0 -" % T]
         cases.append(("%s%d" % (prefix, seed), ops))
     return cases
+
+
+# ---------------------------------------------------------------- ConcSub at poll granularity (docs/FORMAT-cs.md)
+
+def cs_cases(seed, n, prefix="cs"):
+    """Schedules for the held-handler engine: new consumer / one poll / drop / fill the mailbox / let the runtime
+    run / publish k / let every lease run out / delete, on one subscription.  The generator only keeps the mailbox
+    from being over-filled (the model has no senders waiting for room other than consumers): it tracks an upper
+    bound of the occupancy and the consumers that may be waiting for room."""
+    rng = random.Random(seed)
+    T, Sn = hx(tname("p", "t")), hx(sname("p", "s"))
+    cases = []
+    for i in range(n):
+        ops = ["SEED %d" % (i % 23), "CT " + T, "CS %s %s 10 ~" % (Sn, T)]
+        occ, blocked, live, nid, advs, deleted = 0, set(), [], 0, 0, False
+        heavy_fill = rng.random() < 0.5
+        for _ in range(rng.randrange(6, 40)):
+            x = rng.random()
+            if x < 0.16 and len(live) < 5 and not deleted:
+                nid += 1
+                live.append(nid)
+                ops.append("XN %d %s %d" % (nid, Sn, rng.choice([1, 1, 2, 5])))
+            elif x < 0.46 and live:
+                c = rng.choice(live)
+                ops.append("XQ %d" % c)
+                if occ >= 16:
+                    blocked.add(c)
+                else:
+                    occ += 1
+                    blocked.discard(c)
+            elif x < 0.54 and live:
+                c = rng.choice(live)
+                live.remove(c)
+                blocked.discard(c)
+                ops.append("XD %d" % c)
+            elif x < 0.66 and not blocked and occ < 16 and not deleted:
+                k = (16 - occ) if heavy_fill and rng.random() < 0.7 else rng.randrange(1, 17 - occ)
+                ops.append("XF %s %d" % (Sn, k))
+                occ += k
+            elif x < 0.76:
+                ops.append("XT")
+                occ = 0
+            elif x < 0.88:
+                ops.append("PUBN %s %d 78" % (T, rng.choice([1, 1, 2, 3])))
+                occ = 0
+            elif x < 0.93 and advs < 20:
+                # the mailbox is emptied first: whether a queued pull or the expiry is handled first is the
+                # actor's select! order, which the model leaves open
+                ops += ["XT", "ADV %d" % (11000 * MS)]
+                advs += 1
+                occ = 0
+            elif x < 0.95 and not deleted:
+                ops.append("DS " + Sn)
+                deleted = True
+                occ = 0
+            else:
+                ops.append("STATS " + Sn)
+                occ = 0
+        # epilogue: as many rounds of (runtime runs; every consumer polled) as there are consumers and one more,
+        # so that a chain of hand-offs can reach each of them; then the state
+        for _ in range(len(live) + 1):
+            ops += ["XT"] + ["XQ %d" % c for c in live]
+        ops += ["STATS " + Sn]
+        cases.append(("%s%d" % (prefix, i), ops))
+    return cases
